@@ -132,7 +132,10 @@ Lemma avro_parse_ok : forall w c xs, avro_parse w c = AvOk xs -> as_w w c = Some
 Proof. intros w c xs H. destruct w, c as [|[|] ?|[|] ?|?| | | |? [|]]; simpl in H; inversion H; reflexivity. Qed.
 
 Lemma json_parse_ok : forall w c xs, json_parse w c = Some xs -> as_w w c = Some xs.
-Proof. intros w c xs H. destruct w, c as [|[|] ?|[|] ?|?| | | |? [|]]; simpl in H; inversion H; reflexivity. Qed.
+Proof.
+  intros w c xs H. destruct w, c as [|[|] ?|[|] ?|?| | | |? [|]]; simpl in H;
+    try rewrite list_json_section_required in H; try rewrite manifest_json_section_required in H; inversion H; reflexivity.
+Qed.
 
 Lemma holds_intro : forall w st k ob xs, lookup k st = Some ob -> as_w w (body ob) = Some xs -> holds w st k xs.
 Proof. intros w st k ob xs H1 H2. destruct w; exists ob; auto. Qed.
@@ -952,10 +955,10 @@ Proof.
   - apply nodupb_sound. exact H1.
   - intros l Hl Hn. specialize (H2 l Hl). rewrite Hn in H2. exact H2.
   - intros k ob ms m L B Hm Hn. specialize (OBJ k ob L). unfold wf_objb in OBJ.
-    destruct (body ob); simpl in B; inversion B; subst; [|contradiction].
+    destruct (body ob); simpl in B; inversion B; subst.
     rewrite forallb_forall in OBJ. specialize (OBJ m Hm). rewrite Hn in OBJ. exact OBJ.
   - intros k ob es e L B He. specialize (OBJ k ob L). unfold wf_objb in OBJ.
-    destruct (body ob); simpl in B; inversion B; subst; [|contradiction].
+    destruct (body ob); simpl in B; inversion B; subst.
     rewrite forallb_forall in OBJ. exact (OBJ e He).
   - intros mk ob t L M B Hn. specialize (OBJ mk ob L). unfold wf_objb in OBJ. rewrite B in OBJ.
     apply is_marker_keyb_iff in M. rewrite M, Hn in OBJ. simpl in OBJ. apply str_mem_In. exact OBJ.
